@@ -7,6 +7,7 @@ Linear edges are compared directly, log edges through log10, logicle edges throu
 transform built per channel (the correctness of that transform is C18, not claimed).
 """
 import json
+import zlib
 import os
 import warnings
 
@@ -142,10 +143,11 @@ def rfrac(q):
     return q[0] / q[1]
 
 
-def render_ch(f):
+def render_ch(f, neg=False):
     if f['t'] == 'none':
         return None
-    el = [('c%d' % c) if n else c - 1 for c, n in zip(f['cols'], f['named'])]
+    # neg: positions written as NEGATIVE indices (counted from the last of the three channels) - another spelling
+    el = [('c%d' % c) if n else (c - 1 - 3 if neg else c - 1) for c, n in zip(f['cols'], f['named'])]
     return el[0] if f['t'] == 'scalar' else el
 
 
@@ -288,7 +290,7 @@ def main(chk, replay=None):
         exp = st['out']
         x = W[state]
         before = fp(x)
-        ch = render_ch(f)
+        ch = render_ch(f, neg=(zlib.crc32(json.dumps(st['scn']).encode()) % 3 == 0))
         kw = dict(channels=ch, nbins=render_arg(nb, lambda v: None if v == [] else v[0]), scale=render_arg(sc, str))
         kw.update(OVR[ov])
         args_before = repr((kw['channels'], kw['nbins'], kw['scale']))
